@@ -259,6 +259,12 @@ class TunnelCommunity(Community):
 
         await self.request_cache.shutdown()
 
+        # The crypto endpoint listens on our behalf: stop it from handing packets to an unloaded community.
+        crypto_endpoint = getattr(self, "crypto_endpoint", None)
+        if isinstance(crypto_endpoint, PythonCryptoEndpoint):
+            self.endpoint.remove_listener(crypto_endpoint)
+            crypto_endpoint.tunnel_community = None
+
         await super().unload()
 
     def get_serializer(self) -> Serializer:
